@@ -140,12 +140,36 @@ def check_frame(ctx: Check, tree: Tree) -> None:
     # recursion continues with the boosted pool into the child's decay node
     rec = [c for c in walk_function(fn.node) if isinstance(c, ast.Call) and isinstance(c.func, ast.Name) and c.func.id == fn.name]
     ok = False
+    foreign = None
     for c in rec:
         if len(c.args) == 2:
             pool_defs = rd.closure(rd.uses(c.args[0]))
             ok = any(d.value is comp for d in pool_defs) and "ending_node_id" in unparse(inl.expr(c.args[1]))
+            # ... and with nothing but that pool: every definition that reaches the argument
+            # (through plain name copies) is the comprehension of THIS activation.  A pool read
+            # back from a container that outlives the activation (a memo keyed by the
+            # sub-system's ids) is the frame of whichever chain of parents filled it first.
+            work, seen = [c.args[0]], set()
+            while work:
+                e = work.pop()
+                if e is comp:
+                    continue
+                if isinstance(e, ast.Name):
+                    for d in rd.uses(e):
+                        if id(d) in seen:
+                            continue
+                        seen.add(id(d))
+                        if d.value is None:
+                            foreign = foreign or f"`{e.id}` ({d.kind})"
+                        else:
+                            work.append(d.value)
+                else:
+                    foreign = foreign or f"`{unparse(e)[:60]}`"
     ctx.verdict(ok, "R-FRAME", f"{fn.qual}::recursion", tree.loc(rec[0]) if rec else tree.loc(fn.node),
                 "the recursion descends into the child's decay node with the boosted momentum pool")
+    ctx.verdict(foreign is None, "R-FRAME", f"{fn.qual}::recursion-own-pool", tree.loc(rec[0]) if rec else tree.loc(fn.node),
+                "the pool handed to the recursion is the one boosted in this activation (from this activation's pool), on every path",
+                None if foreign is None else f"the pool may also be {foreign}: a frame reached through a different chain of parent frames differs by a Wigner rotation")
 
 
 def normalised_id(tree: Tree, fn: FuncInfo, rd: RD, arg: ast.AST, call: ast.Call) -> str | None:
@@ -330,6 +354,7 @@ def run(ctx: Check, tree: Tree) -> None:
         "R-HELPERS: is_opposite_helicity_state is the strict order on attached final states between a state and its sibling; determine_attached_final_state / get_sibling_state_id / get_parent_id have their documented definitions",
         "R-NORMALISED: every request for angle symbols is for the helicity state (children[0] or an id normalised with is_opposite_helicity_state); from_transition swap; alignment sign",
         "R-CONVENTION: Wigner-D takes (-phi, theta, 0) of the symbols of children[0]",
+        "R-WIRING (shared with C05): the axis-angle rotation chain binds every Wigner D to the outer helicity symbol and the next free summation index",
         "R-GROUPKEY: the incoherent sum over outer spin projections is complete: the grouping key separates every (particle, projection) of the outer states",
     ]
     ctx.not_decided += ["numerical invariance of the intensity under rotations", "Wigner rotations of the axis-angle alignment (matrix products of boosts)"]
@@ -348,6 +373,9 @@ def run(ctx: Check, tree: Tree) -> None:
     ctx.section(check_wigner_angle_table, ctx, tree)
 
     ctx.section(check_rotation_chain_order, ctx, tree)  # interfering topologies with axis-angle alignment
+    from .c05 import check_axisangle_structure
+
+    ctx.section(check_axisangle_structure, ctx, tree)  # the alignment rotation is a unitary change of basis only if every D is bound to its summation symbols
     from .c02 import check_group_key
 
     ctx.section(check_group_key, ctx, tree)
